@@ -313,8 +313,13 @@ def gen_plan(rng, tier, index, config=None):
         steps.append({"op": "validate", "copy": "c0", "how": vhow})
     elif scen == "sighash_churn":
         # one checker object kept while outputs come and go and other fields change, digests asked in between
+        resign = r.chance(0.6)
         steps = [steps[0]]
-        for _ in range(r.between(5, 12)):
+        if resign:
+            # ... and one Solver object kept too: everything is signed first, and signed again after the churn
+            steps.append({"op": "sign", "copy": "c0", "keys": allkeys, "supply": "dict", "hash_type": r.pick([None, 1, 0x81, 3]), "inputs": None,
+                          "solver": "reuse"})
+        for _ in range(r.between(5, 12) if not resign else r.between(1, 5)):
             kind = r.weighted([("out_add", 3), ("out_remove", 3), ("out_value", 2), ("out_script", 1), ("sequence", 1), ("outpoint", 1),
                                ("out_swap", 1)])
             steps.append({"op": "tamper", "copy": "c0", "kind": kind, "a": r.bits(16), "b": r.bits(16), "bit": r.below(8),
@@ -323,6 +328,10 @@ def gen_plan(rng, tier, index, config=None):
                 steps.append({"op": "revert", "copy": "c0"})
             steps.append({"op": "sighash", "copy": "c0", "idx": r.below(nin + 1), "script": r.pick(["puzzle", "puzzle", "codesep"]),
                           "seed": r.bits(32), "all256": False, "ht": r.pick([1, 2, 3, 3, 0x81, 0x83, 0x43, 0xC3]), "checker": "reuse", "len": 0})
+        if resign:
+            steps.append({"op": "sign", "copy": "c0", "keys": allkeys, "supply": "dict", "hash_type": r.pick([None, 1, 0x81]), "inputs": None,
+                          "solver": "reuse"})
+            steps.append({"op": "validate", "copy": "c0", "how": "each"})
     elif scen == "kc_lock_cycle" and hd:
         # one long-lived keychain of hierarchical keys: used, locked (secrets cleared), unlocked again, used again
         hk = [k for k in allkeys if keys[k].get("path")]
@@ -1430,12 +1439,17 @@ def _op_tamper(ctx, W, st):
     before_v = [v.valid for v in [W.V.input(snapshot[0], j, snapshot[1][j] if j < len(snapshot[1]) else None)
                                    for j in range(len(snapshot[0]["ins"]))]]
     try:
+        cp.obj.id(), cp.obj.w_id()    # (the ids have been looked at before the change: whatever is remembered must follow it)
+    except Exception:
+        pass
+    try:
         _write_obj(W, cp)
     except Exception as e:
         raise HarnessError("cannot write tampered fields: %r" % (e,))
     m2, u2 = _read_obj(cp.obj)
     if m2 != cp.m or u2 != cp.u:
         raise HarnessError("object and model diverged after tamper %s" % kind)
+    _ids_follow(ctx, W, cp, "tamper " + kind)
     after_v = [v.valid for v in _verdicts(W, cp)]
     ctx.obs("tamper", st["copy"], kind, before_v, after_v)
     if len(before_v) == len(after_v) and kind not in ("in_swap", "unlock_swap"):
@@ -1446,16 +1460,33 @@ def _op_tamper(ctx, W, st):
                 ctx.probe("committed_change_invalidates")
 
 
+def _ids_follow(ctx, W, cp, when):
+    """the ids of the long-lived object are those of its current fields"""
+    try:
+        got = (cp.obj.id(), cp.obj.w_id())
+    except Exception as e:
+        ctx.violate("C07", "tx-id-raised", {"exc": type(e).__name__, "after": when})
+        return
+    exp = (W.txid(cp.m)[::-1].hex(), W.wtxid(cp.m)[::-1].hex())
+    if got != exp:
+        ctx.violate("C07", "tx-id", {"id": got[0], "expected": exp[0], "w_id": got[1], "expected_w_id": exp[1], "after": when})
+
+
 def _op_revert(ctx, W, st):
     cp = W.copies.get(st["copy"])
     if cp is None or not cp.history:
         return
+    try:
+        cp.obj.id(), cp.obj.w_id()
+    except Exception:
+        pass
     cp.m, cp.u, cp.clean, cp.specs, cp.ht_only = cp.history.pop()
     _write_obj(W, cp)
     m2, u2 = _read_obj(cp.obj)
     if m2 != cp.m or u2 != cp.u:
         raise HarnessError("object and model diverged after revert")
     ctx.fault("revert")
+    _ids_follow(ctx, W, cp, "revert")
 
 
 def _script_for(W, cp, st, idx):
